@@ -238,26 +238,62 @@ Section WithEsc.
     rewrite is_clist_map_calls, disp_calls_ok. reflexivity.
   Qed.
 
-  Lemma children_calls_ok : forall ext children rest,
-    Forall (fun c => calls_ok (structure_calls ext c) true false = true) children ->
+  Lemma children_calls_ok : forall ms ext children rest,
+    Forall (fun c => calls_ok (structure_calls ms ext c) true false = true) children ->
     children <> [] -> calls_ok rest false true = true ->
     forall f p, (f || p) = true ->
-    calls_ok (map (fun c => CList Adj (structure_calls ext c)) children ++ rest) f p = true.
+    calls_ok (map (fun c => CList Adj (structure_calls ms ext c)) children ++ rest) f p = true.
   Proof.
-    intros ext children rest HF. induction HF as [|c cs Hc Hcs IH]; intros Hne Hrest f p Hfp; [contradiction|].
+    intros ms ext children rest HF. induction HF as [|c cs Hc Hcs IH]; intros Hne Hrest f p Hfp; [contradiction|].
     cbn [map app calls_ok]. rewrite call_ok_clist, Hfp, Hc. cbn [andb is_clist].
     destruct cs as [|c' cs'].
     - cbn [map app]. exact Hrest.
     - apply IH; [discriminate|exact Hrest|reflexivity].
   Qed.
 
-  Lemma structure_calls_ok : forall ext t, calls_ok (structure_calls ext t) true false = true.
+  Lemma child_calls_eq : forall ms ext h env size lines emb children,
+    child_calls ms ext (MNode h env size lines emb children) =
+    if is_msg h then match emb with Some c => child_calls ms ext c | None => [] end
+    else map (fun c => CList Adj (structure_calls ms ext c)) children.
+  Proof. reflexivity. Qed.
+
+  Lemma structure_calls_eq : forall ms ext h env size lines emb children,
+    structure_calls ms ext (MNode h env size lines emb children) =
+    match (if is_msg h
+           then (if ms then [] else match emb with Some c => child_calls ms ext c | None => [] end)
+           else map (fun c => CList Adj (structure_calls ms ext c)) children) with
+    | [] =>
+      [CStr (h_type h); CStr (h_sub h); map_calls Auto (h_params h); CStr (h_id h); CStr (h_desc h); CStr (h_enc h); CNum size]
+      ++ (if is_msg h then match emb with
+                           | Some child => [envelope_calls Forced (node_env child); CList Adj (structure_calls ms ext child)]
+                           | None => [] end else [])
+      ++ (if is_text h || is_msg h then [CNum lines] else [])
+      ++ only_ext ext [CStr (h_md5 h); disp_calls h; CStr (h_lang h); CStr (h_loc h)]
+    | _ :: _ =>
+      (if is_msg h
+       then (if ms then [] else match emb with Some c => child_calls ms ext c | None => [] end)
+       else map (fun c => CList Adj (structure_calls ms ext c)) children)
+      ++ [CStr (h_sub h)]
+      ++ only_ext ext [map_calls Auto (h_params h); disp_calls h; CStr (h_lang h); CStr (h_loc h)]
+    end.
+  Proof. reflexivity. Qed.
+
+  (* both for the calls of structure(t) and for the child structures of t (childStructures over section.Children()) *)
+  Definition tree_calls_ok (ms ext : bool) (t : mtree) : Prop :=
+    calls_ok (structure_calls ms ext t) true false = true /\
+    (forall rest f p, (f || p) = true -> calls_ok rest false true = true -> child_calls ms ext t <> [] ->
+       calls_ok (child_calls ms ext t ++ rest) f p = true).
+
+  Lemma tree_calls_ok_all : forall ms ext t, tree_calls_ok ms ext t.
   Proof.
-    intros ext t. induction t using mtree_ind2.
+    intros ms ext t. induction t using mtree_ind2.
+    rename H into Hemb. rename H0 into Hch.
+    assert (Hch1 : Forall (fun c => calls_ok (structure_calls ms ext c) true false = true) children).
+    { eapply Forall_impl; [|exact Hch]. intros c [A _]. exact A. }
     assert (Hsingle : calls_ok
       ([CStr (h_type h); CStr (h_sub h); map_calls Auto (h_params h); CStr (h_id h); CStr (h_desc h); CStr (h_enc h); CNum size]
        ++ (if is_msg h then match emb with
-                            | Some child => [envelope_calls Forced (node_env child); CList Adj (structure_calls ext child)]
+                            | Some child => [envelope_calls Forced (node_env child); CList Adj (structure_calls ms ext child)]
                             | None => [] end else [])
        ++ (if is_text h || is_msg h then [CNum lines] else [])
        ++ only_ext ext [CStr (h_md5 h); disp_calls h; CStr (h_lang h); CStr (h_loc h)]) true false = true).
@@ -266,22 +302,40 @@ Section WithEsc.
       destruct (is_msg h); [destruct emb as [child|]|].
       - replace (is_text h || true) with true by (symmetry; apply orb_true_r).
         cbn [app calls_ok]. rewrite (envelope_calls_ok Forced (node_env child) false false eq_refl).
-        rewrite call_ok_clist. unfold opt_P in H. rewrite H.
+        rewrite call_ok_clist. unfold opt_P in Hemb. destruct Hemb as [Hc _]. rewrite Hc.
         replace (is_clist (envelope_calls Forced (node_env child))) with true by reflexivity.
         cbn [orb andb app calls_ok call_ok is_clist]. apply ext_single_ok.
       - replace (is_text h || true) with true by (symmetry; apply orb_true_r).
         cbn [app calls_ok call_ok andb is_clist]. apply ext_single_ok.
       - destruct (is_text h); cbn [orb app calls_ok call_ok andb is_clist]; apply ext_single_ok. }
-    cbn [structure_calls]. destruct children as [|c cs]; [exact Hsingle|].
-    destruct (is_msg h) eqn:Em.
-    - exact Hsingle.
-    - apply children_calls_ok; auto; [discriminate|].
-      cbn [app calls_ok call_ok is_clist andb]. apply ext_multi_ok.
+    assert (Hrest : calls_ok ([CStr (h_sub h)] ++
+                       only_ext ext [map_calls Auto (h_params h); disp_calls h; CStr (h_lang h); CStr (h_loc h)]) false true = true).
+    { cbn [app calls_ok call_ok is_clist andb]. apply ext_multi_ok. }
+    split.
+    - (* structure(t) *)
+      rewrite structure_calls_eq. destruct (is_msg h) eqn:Em.
+      + destruct ms; [exact Hsingle|].
+        destruct emb as [c|]; [|exact Hsingle].
+        destruct (child_calls false ext c) as [|x xs] eqn:Ecc; [exact Hsingle|].
+        unfold opt_P in Hemb. destruct Hemb as [_ Hc2]. rewrite <- Ecc.
+        apply Hc2; auto. rewrite Ecc. discriminate.
+      + destruct children as [|c cs]; [exact Hsingle|].
+        cbn [map]. cbv iota beta.
+        change (CList Adj (structure_calls ms ext c) :: map (fun c0 : mtree => CList Adj (structure_calls ms ext c0)) cs)
+          with (map (fun c0 : mtree => CList Adj (structure_calls ms ext c0)) (c :: cs)).
+        apply children_calls_ok; auto. discriminate.
+    - (* the child structures of t *)
+      intros rest f p Hfp Hr Hne. rewrite child_calls_eq in *. destruct (is_msg h).
+      + destruct emb as [c|]; [|contradiction]. unfold opt_P in Hemb. destruct Hemb as [_ Hc2]. apply Hc2; auto.
+      + apply children_calls_ok; auto. intros ->. apply Hne. reflexivity.
   Qed.
 
+  Lemma structure_calls_ok : forall ms ext t, calls_ok (structure_calls ms ext t) true false = true.
+  Proof. intros ms ext t. exact (proj1 (tree_calls_ok_all ms ext t)). Qed.
+
   (* ---------- the theorems ---------- *)
-  Theorem writer_structure_wf : forall ext t, wf_plist (write_structure esc ext t) = true.
-  Proof. intros ext t. unfold write_structure. apply exec_wf. apply structure_calls_ok. Qed.
+  Theorem writer_structure_wf : forall ms ext t, wf_plist (write_structure esc ms ext t) = true.
+  Proof. intros ms ext t. unfold write_structure. apply exec_wf. apply structure_calls_ok. Qed.
 
   Theorem writer_envelope_wf : forall e, wf_plist (write_envelope esc e) = true.
   Proof.
@@ -291,19 +345,28 @@ Section WithEsc.
 
   (* the written text read back with the checker is exactly the syntax tree of the call sequence: positions of
      type, subtype, sorted parameters, size, line count ... are those of the MIME tree *)
-  Theorem writer_structure_reads_back : forall ext t,
-    parse_plist (write_structure esc ext t) = Some (PList (ast_list (structure_calls ext t) true)).
+  Theorem writer_structure_reads_back : forall ms ext t,
+    parse_plist (write_structure esc ms ext t) = Some (PList (ast_list (structure_calls ms ext t) true)).
   Proof.
-    intros ext t. unfold write_structure. rewrite exec_clist. cbn [app]. rewrite exec_list_render.
+    intros ms ext t. unfold write_structure. rewrite exec_clist. cbn [app]. rewrite exec_list_render.
     rewrite <- render_list. apply parse_plist_render. rewrite valid_list. apply calls_ok_valid. apply structure_calls_ok.
+  Qed.
+
+  (* with the decision rule of notes/C12-fix-2.diff every message/rfc822 node is written in the single-part form:
+     type, subtype, ..., size, envelope of the embedded message, structure of the embedded message, lines *)
+  Theorem writer_message_single : forall ext h env size lines child children, is_msg h = true ->
+    structure_calls true ext (MNode h env size lines (Some child) children) =
+      [CStr (h_type h); CStr (h_sub h); map_calls Auto (h_params h); CStr (h_id h); CStr (h_desc h); CStr (h_enc h); CNum size]
+      ++ [envelope_calls Forced (node_env child); CList Adj (structure_calls true ext child)]
+      ++ [CNum lines]
+      ++ only_ext ext [CStr (h_md5 h); disp_calls h; CStr (h_lang h); CStr (h_loc h)].
+  Proof.
+    intros ext h env size lines child children Hm. rewrite structure_calls_eq. rewrite Hm.
+    rewrite orb_true_r. reflexivity.
   Qed.
 End WithEsc.
 
 (* ---------- the concrete Quote used by the correspondence run satisfies the hypothesis (non-vacuity) ---------- *)
-Lemma qc_ok_app : forall a b, qc_ok a = true -> qc_ok b = true ->
-  (forall x, a <> [x] \/ True) -> True.
-Proof. auto. Qed.
-
 Lemma hex_digit_not_special : forall n, (n < 16)%N ->
   N.eqb (hex_digit n) BSL = false /\ N.eqb (hex_digit n) DQ = false /\ is_crlf (hex_digit n) = false.
 Proof.
